@@ -398,6 +398,8 @@ use muxide::fragmented::{FragmentConfig, FragmentedError, FragmentedMuxer};
 pub enum FragRes {
     WriteOk,
     WriteErr { prev: u64, curr: u64, text_len: usize },
+    /// rejected with a variant this harness does not know (the enum may grow)
+    WriteErrOther { debug: String, text_len: usize },
     Flushed(Option<Vec<u8>>),
     Ready(bool),
     DurationMs(u64),
@@ -485,8 +487,10 @@ pub fn run_frag(case: &FragCase) -> FragExec {
                 Ok(()) => FragRes::WriteOk,
                 Err(e) => {
                     let n = format!("{} {:?} {:#}", e, e, e).len();
+                    #[allow(unreachable_patterns)]
                     match e {
                         FragmentedError::NonMonotonicDts { prev_dts, curr_dts } => FragRes::WriteErr { prev: prev_dts, curr: curr_dts, text_len: n },
+                        other => FragRes::WriteErrOther { debug: format!("{:?}", other), text_len: n },
                     }
                 }
             }),
